@@ -9,6 +9,23 @@ KawinV.Solver.solve on Float (correspondence: accepted times, number of steps, s
 structure/shapes of the state seen by every callback).  Nested-state flatten/unflatten (single
 model and Coupler) is compared with KawinV.Flatten bit for bit.
 
+Time bookkeeping: every scripted model carries an entry with derivative 1 that starts at t0 (the
+clock): it must be bit-identical with the time at every callback, for both iterators and any
+doubles (`x + 1.0*dt` and `currTime + dt` are the same IEEE operation) — the time handed to
+postProcess is the previous time plus the step the iterator used for the state update (theorems
+step_time_bookkeeping, solveX_const, solveX_clock_euler/_rk4 on the loop with the state carried
+along, `runX`; the model's clock states are compared through the driver verb sol.runx).
+
+Layout / resize runs: states that are lists mixing Python floats, NumPy scalars, arrays (also
+empty), nested lists and 2-D arrays in every order, solved alone and as 2-3 coupled models over 1-3
+solve calls, with sub-models that return a state of another length from postProcess at scripted
+steps (grow, shrink, at either end, entries appearing/disappearing, several models at once).  Every
+entry has its own constant derivative, so the CONTENT every callback must receive is known exactly
+(dyadic inputs) and compared, not only the shapes.  The Coupler's size bookkeeping through such a
+history is modelled (KawinV.Flatten.Coupler, theorems deliverAll_history,
+unflattenC_flattenC_history, unflattenC_history_shapes, stale_sizes_misdeliver) and compared through
+the driver verb flat.hist, on real runs and on one Coupler object handed a history of states.
+
 Numbers: 'dyadic' cases use few-bit dyadic rationals, on which + - * are exact in doubles: there
 model and implementation must agree exactly and the oracle is exact.  'general' cases use random
 doubles: time stamps are compared to 4 ulp, and the oracle allows the final time to exceed tf by
@@ -22,13 +39,14 @@ from vlib import Result, enc_list, f2b, Toks, close, ulps
 
 PROP = 'C05'
 META = {
-    'level_text': 'Lean 4 theorems, by induction over the solve loop with no bound on the number of steps and for EVERY proposal function and stop schedule (proposals are an inductive fin x | +inf | -inf | NaN with Python comparison semantics): accepted times strictly increase, lie in (t0, tf], every step is positive and <= maxFrac*(tf-t0), every step is >= minFrac*(tf-t0) except possibly the last which then equals the remaining time, exact arrival at tf within N steps when N*minFrac >= 1 (termination bound), a stop request ends the run at that step, the run ends only by arrival/stop/fuel; flatten/unflatten round trips and shape preservation for nested states and for the Coupler size bookkeeping. The executable model is tied to kawin/solver/Solver.py and kawin/GenericModel.py by differential correspondence with adversarial user models on every run, and the property predicate is evaluated directly on the real solver\'s observed step sequences and callback arguments.',
+    'level_text': 'Lean 4 theorems, by induction over the solve loop with no bound on the number of steps and for EVERY proposal function and stop schedule (proposals are an inductive fin x | +inf | -inf | NaN with Python comparison semantics): accepted times strictly increase, lie in (t0, tf], every step is positive and <= maxFrac*(tf-t0), every step is >= minFrac*(tf-t0) except possibly the last which then equals the remaining time, exact arrival at tf within N steps when N*minFrac >= 1 (termination bound), a stop request ends the run at that step, the run ends only by arrival/stop/fuel; flatten/unflatten round trips and shape preservation for nested states (lists mixing scalars and arrays in every order: unflatten_flatten, unflatten_append) and for the Coupler size bookkeeping THROUGH ANY HISTORY OF RESIZES (sub-models returning states of another length from postProcess: deliverAll_history, unflattenC_flattenC_history, unflattenC_history_shapes; slicing with stale sizes fails: stale_sizes_misdeliver); time bookkeeping on the loop with the state carried along (runX): the time handed to postProcess is the previous time plus the step the iterator was given (step_time_bookkeeping), and the state of a model with right-hand side c after any run is x0 + c*(final time - t0), for Euler and Runge-Kutta, every proposal function and stop schedule (solveX_const, solveX_clock_euler, solveX_clock_rk4, solveX_clock_at_end). The executable model is tied to kawin/solver/Solver.py and kawin/GenericModel.py by differential correspondence with adversarial user models on every run, and the property predicate is evaluated directly on the real solver\'s observed step sequences and callback arguments.',
     'level_note': 'Trusted: Lean kernel + Mathlib, axioms propext/Classical.choice/Quot.sound; the hand model equals the Python loop only as far as this run compared them; exact-field arithmetic instead of IEEE doubles (a final time one ulp above tf is IEEE rounding of c+(tf-c), outside the theorem and not flagged); proposals that are not numbers (None, arrays) and non-finite t0/tf are outside the statement; the default flattenX (np.hstack) is modelled on its documented domain (scalars and 1-D arrays), higher-rank arrays only through a flattenX override as kawin\'s own DiffusionModel does; minDtFrac = 0 with non-positive proposals never terminates (theorem no_progress_without_min; the property presupposes a positive minimum fraction).',
     'technique': 'Lean 4 proof over ordered fields (loop invariant) + model/implementation differential correspondence + direct oracle on observed runs',
     'design_ref': 'DESIGN.md section 6, C05',
 }
 LEAN_MODULES = ['KawinV.Props.C05']
-MONITORED = ['structure/shapes of the state seen by getdXdt/getDt/correctdXdt/postProcess during real runs (theorem unflatten_shapes is about the model of unflattenX; the call sites are observed)']
+MONITORED = ['structure/shapes AND content of the state seen by getdXdt/getDt/correctdXdt/postProcess during real runs, also with states resized in postProcess (theorems unflatten_shapes, deliverAll_history are about the model of unflattenX / the Coupler bookkeeping; the call sites are observed)',
+             'bit-identity of an f = 1 entry with the time at every callback (theorem solveX_const is over exact fields)']
 ASSUMPTIONS = [
     't0 < tf finite, 0 < minDtFrac <= maxDtFrac (with minDtFrac = 0 and non-positive proposals the loop makes no progress: no_progress_without_min)',
     'getDt returns a Python/NumPy real number (float, int, NumPy scalar, inf, NaN)',
@@ -506,11 +524,15 @@ def flatten_cases(ctx, res, oracle_only):
             m.flattenX = lambda X: np.concatenate([np.ravel(np.asarray(xi, float)) for xi in X])
         return m
 
-    for _ in range(N):
-        kind = rng.choice(['rt', 'un', 'un-short', 'un-long', 'c', 'c', 'cu'])
+    # the documented default layouts first, on every run: lists mixing Python floats, NumPy scalars and arrays in every order
+    A = lambda *v: np.array(v, float)
+    preset = [[1.5, 2.5], [np.float64(1.5), 2.5], [1.5, A(2.5, 3.5)], [A(1.5, 2.5), 3.5, A(4.5)], [1.5, 2.5, A(3.5, 4.5, 5.5)], [A(1.5), np.float64(2.5)],
+              [1.5, A(), 2.5], [[1.5, 2.5], 3.5], [1.5, [2.5], A(3.5, 4.5)], [1.5, np.float64(2.5), 3.5, A(4.5, 5.5), 6.5]]
+    for k in range(len(preset) + N):
+        kind = rng.choice(['rt', 'un', 'un-short', 'un-long', 'c', 'c', 'cu']) if k >= len(preset) else 'rt'
         if kind in ('rt', 'un', 'un-short', 'un-long'):
-            ravel = rng.random() < 0.4
-            X = gen_state(rng, allow_nd=ravel)
+            ravel = rng.random() < 0.4 if k >= len(preset) else False
+            X = gen_state(rng, allow_nd=ravel) if k >= len(preset) else preset[k]
             m = model(ravel)
             tot = int(sum(np.size(x) for x in X))
             if kind == 'rt':
@@ -616,12 +638,487 @@ def flatten_cases(ctx, res, oracle_only):
                 res.disagree('flatten/unflatten (%s)' % kind, desc, impl[:300], got[:300])
 
 
+# ====================================================================== layout / resize runs
+# States that are lists mixing scalars (Python float, NumPy float64), 1-D arrays (also empty), nested lists of floats and
+# (with a flattenX override) 2-D arrays in every order, solved alone and as 2-3 coupled models, 1-3 consecutive solve calls,
+# both iterators; at scripted accepted steps a model returns a state of ANOTHER length from postProcess (arrays grow /
+# shrink at either end, whole entries appear / disappear: the adaptive-bin pattern of the population balance).
+# Every entry e has its own constant derivative r_e, so the content every callback must receive is known:
+#   state callbacks at time t:  x_e = X_e + r_e*(t - tX)   (X = what the model supplied last, at time tX)
+#   derivative callbacks:       r_e
+# (exact on dyadic inputs; Euler and Runge-Kutta are both exact on constants: theorem solveX_const).  Entry 0 of every model
+# is the clock (starts at t0, derivative 1): bit-identical with the time at every callback, for any doubles.
+NAMED_LAYOUTS = [
+    [['f']], [['n']], [['f'], ['f']], [['n'], ['f']], [['f'], ['a', 3]], [['a', 2], ['f'], ['a', 3]], [['f'], ['a', 0], ['n'], ['a', 1]],
+    [['a', 2], ['n']], [['l', 2], ['f']], [['f'], ['l', 1], ['a', 2]], [['a', 4]], [['f'], ['f'], ['f']], [['a', 1], ['a', 1]],
+]
+
+
+def _item_values(j, i, spec, general):
+    """initial values and derivatives of entry i (i >= 1) of model j: distinct few-bit dyadics"""
+    n = {'f': 1, 'n': 1, 'a': None, 'l': None, 'm': None}[spec[0]]
+    cnt = 1 if n == 1 else int(np.prod(spec[1])) if spec[0] == 'm' else int(spec[1])
+    v = np.array([((5 * j + 11 * i + 3 * e) % 17) / 4 + 1 + 8 * j for e in range(cnt)], float)
+    r = np.array([((7 * j + 3 * i + e) % 9 - 4) / 8 for e in range(cnt)], float)
+    if general:
+        v, r = v * 1.1, r * 0.7
+    if spec[0] == 'f':
+        return float(v[0]), float(r[0])
+    if spec[0] == 'n':
+        return np.float64(v[0]), np.float64(r[0])
+    if spec[0] == 'l':
+        return [float(u) for u in v], [float(u) for u in r]
+    if spec[0] == 'm':
+        return v.reshape(tuple(spec[1])), r.reshape(tuple(spec[1]))
+    return v, r
+
+
+def cfp(X):
+    """structure + shapes as a callback can observe them (a nested list of floats comes back as an array of that shape)"""
+    if not isinstance(X, (list, tuple)):
+        return ('not-a-list', type(X).__name__)
+    return tuple(('s',) if np.ndim(x) == 0 else ('a', tuple(np.shape(x))) for x in X)
+
+
+def _content_same(got, exp, exact, tres):
+    """tres: time resolution term |t| ulp for general doubles (t - tX is formed from rounded times)"""
+    for g, e, in zip(got, exp):
+        ga, ea = np.asarray(g, float), np.asarray(e[0], float)
+        if ga.shape != ea.shape:
+            return False
+        if exact:
+            if not np.array_equal(ga, ea):
+                return False
+        elif ga.size:
+            tol = 1e-10 * max(1.0, float(np.max(np.abs(ea)))) + float(np.max(np.abs(np.asarray(e[1], float)))) * tres
+            if np.any(np.abs(ga - ea) > tol):
+                return False
+    return True
+
+
+def _mk_layout_model(j, spec, t0, exact, log, name):
+    vlib.use_repo()
+    from kawin.GenericModel import GenericModel
+    general = not exact
+
+    class LayoutModel(GenericModel):
+        def __init__(self):
+            super().__init__()
+            self.X, self.R = [float(t0)], [1.0]
+            for i, sp in enumerate(spec['layout']):
+                v, r = _item_values(j, i + 1, sp, general)
+                self.X.append(v); self.R.append(r)
+            self.t = self.tX = float(t0)
+            self.nsteps, self.ndt, self.seq = 0, 0, 0
+            self.bad, self.clock_bad, self.times, self.applied = [], [], [], 0
+            self.resize = {int(k): v for k, v in spec['resize'].items()}
+
+        # ---- what the callbacks must receive
+        def _check(self, where, x, t=None, rate=False):
+            log['callbacks'] = log.get('callbacks', 0) + 1
+            want = cfp(self.X)
+            got = cfp(x)
+            if got != want:
+                if len(self.bad) < 3:
+                    self.bad.append((name, where, self.nsteps, 'structure', repr(got), repr(want)))
+                return
+            if rate:
+                exp = [(r, 0.0) for r in self.R]
+                tres = 0.0
+            else:
+                d = float(t) - self.tX
+                exp = [(np.asarray(xi, float) + np.asarray(r, float) * d, r) for xi, r in zip(self.X, self.R)]
+                tres = 8 * math.ulp(max(abs(float(t)), abs(self.tX), 1e-300))
+                if float(x[0]) != float(t) and len(self.clock_bad) < 3:
+                    self.clock_bad.append((name, where, self.nsteps, float(t), float(x[0])))
+            if not _content_same(x, exp, exact, tres) and len(self.bad) < 3:
+                self.bad.append((name, where, self.nsteps, 'content', [np.asarray(v, float).tolist() for v in x], [np.asarray(e[0], float).tolist() for e in exp]))
+
+        def getCurrentX(self):
+            return self.t, self.X
+
+        def getdXdt(self, t, x):
+            self._check('getdXdt', x, t)
+            return [type(r)(r) if np.ndim(r) == 0 else list(r) if isinstance(r, list) else np.array(r, float) for r in self.R]
+
+        def getDt(self, dXdt):
+            self._check('getDt', dXdt, rate=True)
+            v = spec['props'][self.ndt % len(spec['props'])]
+            self.ndt += 1
+            return v
+
+        def correctdXdt(self, dt, x, dXdt):
+            self._check('correctdXdt.x', x, self.tX)
+            self._check('correctdXdt.dXdt', dXdt, rate=True)
+
+        # ---- scripted resizes
+        def _new(self, n):
+            v = np.array([100.0 + ((self.seq + e) * 5 % 64) / 8 + 16 * j for e in range(n)], float)
+            r = np.array([((self.seq + e) * 3 % 9 - 4) / 8 for e in range(n)], float)
+            self.seq += n
+            return (v, r) if exact else (v * 1.1, r * 0.7)
+
+        def _apply(self, op):
+            kind, idx, n = op[0], int(op[1]), int(op[2])
+            X, R = list(self.X), list(self.R)
+            if kind == 'newitem':
+                v, r = self._new(n); X.append(v); R.append(r)
+            elif kind == 'dropitem':
+                if len(X) <= 1:
+                    return False
+                X.pop(); R.pop()
+            else:
+                arrs = [i for i in range(1, len(X)) if np.ndim(X[i]) == 1]
+                if not arrs:
+                    return False
+                i = arrs[idx % len(arrs)]
+                xi, ri = np.asarray(X[i], float), np.asarray(R[i], float)
+                if kind in ('grow', 'growfront'):
+                    v, r = self._new(n)
+                    xi, ri = (np.concatenate([xi, v]), np.concatenate([ri, r])) if kind == 'grow' else (np.concatenate([v, xi]), np.concatenate([r, ri]))
+                else:
+                    n = min(n, len(xi))
+                    if n == 0:
+                        return False
+                    xi, ri = (np.array(xi[:len(xi) - n]), np.array(ri[:len(ri) - n])) if kind == 'shrink' else (np.array(xi[n:]), np.array(ri[n:]))
+                X[i], R[i] = xi, ri
+            self.X, self.R = X, R
+            return True
+
+        def postProcess(self, time, x):
+            self._check('postProcess', x, time)
+            self.times.append(float(time))
+            self.nsteps += 1
+            if len(self.times) > CAP:
+                raise _Cap()
+            # the model keeps what it was handed (as kawin's models do) and, at scripted steps, resizes it
+            self.X = list(x) if cfp(x) == cfp(self.X) else self.X
+            self.t = self.tX = float(time)
+            for op in self.resize.get(self.nsteps, []):
+                if self._apply(op):
+                    self.applied += 1
+            return self.X, False
+
+        if spec.get('ravel'):
+            def flattenX(self, X):
+                return np.concatenate([np.ravel(np.asarray(xi, float)) for xi in X])
+
+    return LayoutModel()
+
+
+def gen_layout_case(rng, force=None):
+    mode = rng.choice(['dyadic', 'dyadic', 'general'])
+    entry = rng.choice(['coupler', 'coupler', 'coupler', 'model'])
+    nm = rng.choice([2, 2, 3]) if entry == 'coupler' else 1
+    nsolve = rng.choice([1, 1, 2, 3])
+    if mode == 'dyadic':
+        t0 = rng.choice([0.0, 1.0, -2.0, 3.0, dy(rng, -8, 8, 16), 1024.0])
+        sims = [rng.choice([1.0, 2.0, 0.5, 4.0, dy(rng, 0.25, 8, 8) or 1.0]) for _ in range(nsolve)]
+        mn = rng.choice([0.25, 0.125, 1 / 16, 1 / 64, 1 / 256])
+        mx = rng.choice([1.0, 1.0, 0.5, 0.25])
+    else:
+        # coarse and fine minimum / maximum step fractions, simulation times that are not multiples of the step, t0 != 0
+        t0 = rng.choice([0.0, 3.0, -2.5, rng.uniform(-10, 10), rng.uniform(0, 100)])
+        sims = [rng.choice([1.0, rng.uniform(0.5, 20.0)]) for _ in range(nsolve)]
+        mn = rng.choice([1e-3, 2e-3, 4e-3, 1e-2, 0.05, 0.1, 0.3, 1e-8, 10 ** rng.uniform(-3, -0.5)])
+        mx = rng.choice([1.0, 1.0, 0.5, 0.3, 0.1])
+    mx = max(mx, mn)
+    models = []
+    for j in range(nm):
+        ravel = rng.random() < 0.25
+        if rng.random() < 0.5:
+            layout = [list(sp) for sp in rng.choice(NAMED_LAYOUTS)]
+        else:
+            layout = []
+            for _ in range(rng.choice([1, 2, 2, 3, 4])):
+                k = rng.random()
+                layout.append(['f'] if k < 0.2 else ['n'] if k < 0.35 else ['l', rng.choice([1, 2, 3])] if k < 0.42 else
+                              ['m', [rng.choice([1, 2, 3]), rng.choice([1, 2])]] if (k < 0.55 and ravel) else ['a', rng.choice([0, 1, 2, 3, 5, 8])])
+        if any(sp[0] == 'm' for sp in layout):
+            ravel = True
+        if mode == 'dyadic':
+            props = [max(sims) * dy(rng, 0.04, 0.6, 64) for _ in range(rng.choice([1, 2, 3, 5]))]
+        else:
+            n, frac = rng.choice([3, 5, 8, 13, 21, 34]), rng.choice([0.1, 0.37, 0.5, 0.9])
+            props = [sims[0] / (n + frac)] if rng.random() < 0.6 else [sims[0] * rng.uniform(0.03, 0.5) for _ in range(3)]
+        # resize script: accepted-step number (counted over all solve calls) -> operations
+        resize = {}
+        r = rng.random()
+        nres = 0 if r < 0.25 else rng.choice([1, 1, 2, 3, 5])
+        if force == 'resize':
+            nres = max(nres, 1) if j == 0 or rng.random() < 0.5 else nres
+        for _ in range(nres):
+            k = rng.choice([1, 1, 2, 2, 3, 4, 5, 7, 9, 12, 20])
+            op = rng.choice(['grow', 'grow', 'shrink', 'shrink', 'growfront', 'shrinkfront', 'newitem', 'dropitem'])
+            resize.setdefault(str(k), []).append([op, rng.randint(0, 3), rng.choice([1, 1, 2, 3, 6])])
+        models.append(dict(layout=layout, props=props, resize=resize, ravel=ravel))
+    return dict(kind='layout-run', mode=mode, entry=entry, iterator=rng.choice(['euler', 'rk4']), t0=t0, sims=sims, mn=mn, mx=mx, models=models)
+
+
+def layout_witnesses():
+    """fixed cases that run first on every run: the documented default layouts ([float, float], [float, array], ...) alone,
+    and couplers in which the first / the last / a middle model grows or shrinks, in the first and in a later solve call"""
+    out = []
+    for it in ('euler', 'rk4'):
+        for lay in ([['f']], [['f'], ['a', 2]], [['a', 2], ['f'], ['a', 1]], [['n'], ['f']]):
+            out.append(dict(kind='layout-run', mode='dyadic', entry='model', iterator=it, t0=1.0, sims=[1.0], mn=1 / 64, mx=1.0,
+                            models=[dict(layout=lay, props=[0.1875], resize={}, ravel=False)]))
+        A = lambda rs: dict(layout=[['a', 3]], props=[0.125], resize=rs, ravel=False)
+        B = lambda rs: dict(layout=[['f'], ['a', 5]], props=[0.1875], resize=rs, ravel=False)
+        C = lambda rs: dict(layout=[['a', 2], ['n'], ['a', 4]], props=[0.25], resize=rs, ravel=False)
+        for ms, sims in (([A({'3': [['grow', 0, 1]]}), B({})], [1.0]),
+                         ([A({}), B({'3': [['grow', 0, 2]]})], [1.0]),
+                         ([A({}), B({'4': [['shrink', 0, 2]]}), C({})], [1.0]),
+                         ([A({'2': [['grow', 0, 1]]}), B({'2': [['shrinkfront', 0, 1]]})], [1.0, 0.5]),
+                         ([A({'10': [['growfront', 0, 2]]}), B({}), C({'12': [['shrink', 1, 1]], '13': [['newitem', 0, 2]]})], [1.0, 1.0]),
+                         ([A({'1': [['shrink', 0, 3]], '2': [['grow', 0, 2]], '5': [['dropitem', 0, 0]]}), B({})], [1.0])):
+            out.append(dict(kind='layout-run', mode='dyadic', entry='coupler', iterator=it, t0=0.0, sims=sims, mn=1 / 64, mx=1.0, models=ms))
+    # coarse minimum step, simulation time not a multiple of the step, t0 != 0
+    for it in ('euler', 'rk4'):
+        for mn in (1e-3, 4e-3, 0.05, 0.3):
+            out.append(dict(kind='layout-run', mode='general', entry='model', iterator=it, t0=3.0, sims=[1.0], mn=mn, mx=1.0,
+                            models=[dict(layout=[['f'], ['a', 2]], props=[1.0 / 20.1], resize={}, ravel=False)]))
+    return out
+
+
+def layout_run(case):
+    import warnings
+    with np.errstate(all='ignore'), warnings.catch_warnings():
+        warnings.simplefilter('ignore')
+        return _layout_run(case)
+
+
+def _layout_run(case):
+    """the real solver on a layout case; returns dict(err, bad, clock_bad, ends, hist, rec, ...)"""
+    vlib.use_repo()
+    from kawin.GenericModel import Coupler
+    from kawin.solver.Solver import SolverType
+    exact = case['mode'] == 'dyadic'
+    log = {}
+    t0 = case['t0']
+    ms = [_mk_layout_model(j, sp, t0, exact, log, 'm%d' % j) for j, sp in enumerate(case['models'])]
+    it = {'euler': SolverType.EXPLICITEULER, 'rk4': SolverType.RK4}[case['iterator']]
+    out = dict(err=None, capped=False, ends=[], hist=[], rec=[], sizes_at_failure=None)
+
+    class RecCoupler(Coupler):
+        """public hooks only: the states the sub-models supplied at the start of each iteration (couplePreProcess) and the
+        states (and the size bookkeeping) the Coupler delivered to the first right-hand-side call of that iteration"""
+        def couplePreProcess(self):
+            out['hist'].append([enc_state(m.X) for m in self.models])
+            self._fresh = True
+
+        def coupledXdt(self, t, x, dXdt):
+            if getattr(self, '_fresh', False):
+                self._fresh = False
+                out['rec'].append((list(getattr(self, '_sizeRef', None) or []), [enc_state(xs) for xs in x],
+                                   [float(v) for xs in x for xi in xs for v in np.ravel(np.asarray(xi, float))]))
+
+    top = ms[0]
+    if case['entry'] == 'coupler':
+        top = RecCoupler(ms)
+        top.time = np.array([t0])
+    tf = t0
+    try:
+        for sim in case['sims']:
+            tstart = top.getCurrentX()[0]
+            tf = tstart + sim
+            top.solve(sim, solverType=it, minDtFrac=case['mn'], maxDtFrac=case['mx'])
+            out['ends'].append((float(tf), float(ms[0].times[-1]) if ms[0].times else float(tstart)))
+    except _Cap:
+        out['capped'] = True
+    except Exception as e:
+        import traceback
+        tb = traceback.extract_tb(e.__traceback__)
+        where = next(('%s:%d' % (fr.filename.split('/')[-1], fr.lineno) for fr in reversed(tb) if '/kawin/' in fr.filename), '')
+        out['err'] = '%s: %s%s' % (type(e).__name__, e, ' (at %s)' % where if where else '')
+        if case['entry'] == 'coupler':
+            out['sizes_at_failure'] = list(getattr(top, '_sizeRef', None) or [])
+    out['bad'] = [b for m in ms for b in m.bad]
+    out['clock_bad'] = [b for m in ms for b in m.clock_bad]
+    out['times'] = list(ms[0].times)
+    out['sub_times'] = [list(m.times) for m in ms]
+    out['applied'] = sum(m.applied for m in ms)
+    out['callbacks'] = log.get('callbacks', 0)
+    out['final_shapes'] = [[list(np.shape(x)) for x in m.X] for m in ms]
+    return out
+
+
+def layout_oracle(res, case, run):
+    site = '%s-%s' % (case['entry'], case['iterator'])
+    exact = case['mode'] == 'dyadic'
+    desc = dict(case)
+    if run['err']:
+        res.violate('state-run-raised-' + site,
+                    'the solver raised while handing the state to the callbacks (%d scripted resizes applied so far, %d accepted steps): %s' % (run['applied'], len(run['times']), run['err']),
+                    desc, run['err'], 'the run completes')
+        return
+    if run['capped']:
+        res.violate('no-termination-' + site, 'the run did not end within %d iterations' % CAP, desc, CAP, 'termination')
+        return
+    for b in run['bad'][:1]:
+        if b[3] == 'structure':
+            res.violate('callback-state-structure-' + case['entry'],
+                        'callback %s of %s (after %d accepted steps) got a state with structure/shapes %s, the model supplied %s' % (b[1], b[0], b[2], b[4], b[5]), desc, b[4], b[5])
+        else:
+            res.violate('callback-state-content-' + case['entry'],
+                        'callback %s of %s (after %d accepted steps) got the right shapes but other numbers than the model returned/advanced: %s, expected %s' % (
+                            b[1], b[0], b[2], str(b[4])[:160], str(b[5])[:160]), desc, b[4], b[5])
+    for b in run['clock_bad'][:1]:
+        res.violate('clock-state-differs-from-time-' + site,
+                    'the entry with derivative 1 that started at t0 was handed to %s of %s (after %d accepted steps) with value %r at time %r: the time does not equal '
+                    'previous time + the step the iterator used for the state update' % (b[1], b[0], b[2], b[4], b[3]), desc, b[4], b[3])
+    for k, (tf, tend) in enumerate(run['ends']):
+        ok = tend == tf if exact else (abs(tend - tf) <= 4 * math.ulp(abs(tf)))
+        if not ok:
+            res.violate('end-time-not-reached-' + site, 'solve call %d ended at %r instead of %r' % (k + 1, tend, tf), desc, tend, tf)
+            break
+    prev = case['t0']
+    for i, t in enumerate(run['times']):
+        if not t > prev:
+            res.violate('time-not-increasing-' + site, 'accepted time %d does not increase: %r after %r' % (i, t, prev), desc, [prev, t], 'strictly increasing')
+            break
+        prev = t
+    if any(st != run['times'] for st in run['sub_times']):
+        res.violate('coupler-submodel-steps', 'coupled models saw different accepted times', desc, [st[:4] for st in run['sub_times']], run['times'][:4])
+
+
+def layout_cases(ctx, res, oracle_only, nmul=1):
+    rng = ctx.rng
+    N = ctx.n(140, 2500) * nmul
+    cases = layout_witnesses() + [gen_layout_case(rng, force='resize' if k % 2 == 0 else None) for k in range(N)]
+    lines, keep = [], []
+    for c in cases:
+        run = layout_run(c)
+        nres = run['applied']
+        res.case(('layout', c['entry'], c['iterator'], c['mode'], c['t0'], repr(c['sims']), c['mn'], c['mx'], repr(c['models'])), len(run['times']) >= 2)
+        res.count('layout-run:' + c['entry']); res.count('layout-run:iter:' + c['iterator']); res.count('layout-run:solve-calls:%d' % len(c['sims']))
+        res.count('layout-run:resizes-applied:' + ('0' if nres == 0 else '1' if nres == 1 else '2-3' if nres <= 3 else '>=4'))
+        if c['mode'] == 'general':
+            res.count('layout-run:minDtFrac:' + ('<=4e-3' if c['mn'] <= 4e-3 else '<=0.05' if c['mn'] <= 0.05 else '>0.05'))
+        for m in c['models']:
+            kinds = ''.join(sp[0] for sp in m['layout'])      # entry 0 is the (scalar) clock, so every non-empty layout has a scalar followed by an entry
+            res.count('layout:' + ('scalars-only' if kinds and all(k in 'fn' for k in kinds) else 'scalar-then-array' if kinds[:1] in ('a', 'l', 'm') else
+                                   'scalars-and-arrays-mixed' if any(k in 'alm' for k in kinds) else 'clock-only'))
+        res.extra['callbacks_fingerprinted'] = res.extra.get('callbacks_fingerprinted', 0) + run['callbacks']
+        layout_oracle(res, c, run)
+        if c['entry'] == 'coupler' and run['hist']:
+            # correspondence: the history of supplied states through the model Coupler (flat.hist)
+            K = len(run['hist'])
+            nm = len(c['models'])
+            lines.append('flat.hist %d %s' % (K, ' '.join('%d %s' % (nm, ' '.join(h)) for h in run['hist'])))
+            ent = []
+            for k in range(K):
+                if k < len(run['rec']):
+                    sz, st, fl = run['rec'][k]
+                    ent.append('%s %s %d %s' % (vlib.enc_ilist(sz), enc_list(fl), nm, ' '.join(st)))
+                else:
+                    ent.append('%s E' % vlib.enc_ilist(run['sizes_at_failure'] or []))
+            keep.append((c, '%d %s' % (K, ' '.join(ent)), run))
+    if ctx.driver_ok and not oracle_only and lines:
+        outl = vlib.run_driver(PROP, lines)
+        for (c, impl, run), line in zip(keep, outl):
+            t = Toks(line)
+            if not t.ok:
+                res.disagree('flat.hist model error', c, 'ok', t.err); continue
+            toks = t.t[1:]
+            # the model also prints the flat vector it produced: same numbers as the delivered states, so the strings agree
+            if ' '.join(toks) != impl:
+                res.disagree('Coupler through a history of resizes: sizes on record / delivered states (first right-hand-side call of each iteration)',
+                             dict(c, n_iterations=len(run['hist'])), impl[:400], ' '.join(toks)[:400])
+            else:
+                res.traces += 1
+                res.count('resize-history-validated')
+
+
+# ---------------------------------------------------------------- one Coupler object, a history of states (no solver)
+def hist_cases(ctx, res, oracle_only, nmul=1):
+    """ONE Coupler object is handed a history of differently sized states: flattenX, then unflattenX of that vector and of a
+    second vector of the same length (what an iterator returns), state after state"""
+    vlib.use_repo()
+    from kawin.GenericModel import GenericModel, Coupler
+    rng = ctx.rng
+    lines, keep = [], []
+    for _ in range(ctx.n(60, 1200) * nmul):
+        nm = rng.choice([2, 2, 3])
+        K = rng.choice([2, 3, 3, 5, 8])
+        cp = Coupler([GenericModel() for _ in range(nm)])
+        hist = []
+        Xs = [gen_state(rng) for _ in range(nm)]
+        for k in range(K):
+            if k:
+                # resize one or more sub-states: new random layout, or grow / shrink one array
+                for j in range(nm):
+                    r = rng.random()
+                    if r < 0.35:
+                        Xs[j] = gen_state(rng)
+                    elif r < 0.7:
+                        X = list(Xs[j])
+                        arrs = [i for i, x in enumerate(X) if np.ndim(x) == 1]
+                        if arrs:
+                            i = rng.choice(arrs)
+                            d = rng.choice([-2, -1, 1, 1, 2, 4])
+                            X[i] = np.array(X[i][:d]) if d < 0 else np.concatenate([X[i], [rng.uniform(-2, 2) for _ in range(d)]])
+                            if all(np.ndim(x) > 0 and np.size(x) == 0 for x in X):
+                                X.append(0.5)
+                        Xs[j] = X
+            hist.append([list(X) for X in Xs])
+        desc = dict(kind='coupler-hist', shapes=[[[list(np.shape(v)) for v in X] for X in H] for H in hist])
+        ent, bad = [], None
+        for k, H in enumerate(hist):
+            try:
+                flat = cp.flattenX(H)
+                sizes = list(cp._sizeRef)
+            except Exception as e:
+                bad = (k, 'flattenX raised %s: %s' % (type(e).__name__, e)); ent.append('E'); break
+            try:
+                Ys = cp.unflattenX(flat, H)
+            except Exception as e:
+                Ys = None
+                bad = bad or (k, 'unflattenX(flattenX(X), X) raised %s: %s' % (type(e).__name__, e))
+            ent.append('%s %s %s' % (vlib.enc_ilist(sizes), enc_list(np.asarray(flat, float).tolist()),
+                                     'E' if Ys is None else '%d %s' % (len(Ys), ' '.join(enc_state(y) for y in Ys))))
+            if Ys is not None and bad is None:
+                same = len(Ys) == len(H) and all(cfp(a) == cfp(b) and all(np.array_equal(np.asarray(u, float), np.asarray(v, float)) for u, v in zip(a, b)) for a, b in zip(H, Ys))
+                if not same:
+                    bad = (k, 'unflattenX(flattenX(X), X) is not X')
+                else:
+                    flat2 = np.asarray(flat, float) * 2.0 + 1.0
+                    try:
+                        Zs = cp.unflattenX(flat2, H)
+                        if not all(cfp(a) == cfp(b) for a, b in zip(H, Zs)) or not np.array_equal(
+                                np.concatenate([np.ravel(np.asarray(v, float)) for Z in Zs for v in Z] + [np.zeros(0)]), flat2):
+                            bad = (k, 'a vector of the same length is not cut into the supplied shapes in order')
+                    except Exception as e:
+                        bad = (k, 'unflattenX raised on a vector of the same length: %s: %s' % (type(e).__name__, e))
+        res.case(('hist', repr(desc['shapes'])), True)
+        res.count('coupler-history:states:%d' % K)
+        if bad:
+            res.violate('coupler-roundtrip-after-resize',
+                        'one Coupler, history of %d differently sized states: at state %d %s (sub-state shapes %s, before: %s)' % (
+                            K, bad[0], bad[1], desc['shapes'][bad[0]], desc['shapes'][bad[0] - 1] if bad[0] else None), dict(desc, failing_state=bad[0]), bad[1], 'X')
+        if len(ent) == K:
+            lines.append('flat.hist %d %s' % (K, ' '.join('%d %s' % (nm, ' '.join(enc_state(X) for X in H)) for H in hist)))
+            keep.append((desc, '%d %s' % (K, ' '.join(ent))))
+    if ctx.driver_ok and not oracle_only and lines:
+        for (desc, impl), line in zip(keep, vlib.run_driver(PROP, lines)):
+            t = Toks(line)
+            got = ' '.join(t.t[1:]) if t.ok else 'err ' + str(t.err)
+            if got != impl:
+                res.disagree('one Coupler, history of states: sizes on record, flat vector, round trip', desc, impl[:400], got[:400])
+
+
+
 # ====================================================================== corr
 def corr(ctx, oracle_only=False, nmul=1):
     res = Result()
     res.rule = ('user models with scripted step proposals (0, negatives, +-inf, NaN, huge/tiny, ints, NumPy scalars, fractions of the span) and stop schedules, '
                 't0 != 0, dyadic and general doubles, min/max fractions incl. > 1, both iterators, plain and through a custom iterator wrapper, entry points '
                 'GenericModel.solve / Coupler of 2-3 models / DESolver directly; nested states of scalars, 1-D (also empty) and N-D arrays; '
+                'every model carries an f = 1 clock entry (state must equal the time bit for bit at every callback); '
+                'layout/resize runs: lists mixing floats, NumPy scalars, arrays, nested lists, 2-D arrays in every order, alone and 2-3 coupled, 1-3 solve calls, '
+                'min step fractions 1e-8 ... 0.3 (incl. 1e-3, 2e-3, 4e-3), simulation times that are not multiples of the step, t0 != 0, scripted resizes in postProcess '
+                '(grow/shrink at either end, entries appearing/disappearing), content of every callback argument compared with the per-entry constant-derivative prediction; '
+                'one Coupler object through histories of 2-8 differently sized states; '
                 'non-trivial = at least 2 accepted steps; distinct = (entry, iterator, config, script)')
     rng = ctx.rng
     N = ctx.n(500, 12000) * nmul
@@ -685,6 +1182,8 @@ def corr(ctx, oracle_only=False, nmul=1):
             if impl_stopped != mstop and n == len(times):
                 res.disagree('stop flag at the end', desc, impl_stopped, mstop)
     flatten_cases(ctx, res, oracle_only)
+    layout_cases(ctx, res, oracle_only, nmul)
+    hist_cases(ctx, res, oracle_only, nmul)
     return res
 
 
@@ -726,10 +1225,38 @@ def _replay_flatten(c):
     return ok
 
 
+def _replay_hist(c):
+    """one Coupler object through the recorded history of state shapes"""
+    vlib.use_repo()
+    from kawin.GenericModel import GenericModel, Coupler
+    hist = c['shapes']
+    cp = Coupler([GenericModel() for _ in hist[0]])
+    ok = True
+    for k, H in enumerate(hist):
+        Xs = [[0.5 + i + 10 * j if not s else (np.arange(int(np.prod(s)), dtype=float) + 1.5 + 10 * j).reshape(tuple(s)) for i, s in enumerate(shp)] for j, shp in enumerate(H)]
+        try:
+            Ys = cp.unflattenX(cp.flattenX(Xs), Xs)
+            same = all(cfp(a) == cfp(b) and all(np.array_equal(np.asarray(u, float), np.asarray(v, float)) for u, v in zip(a, b)) for a, b in zip(Xs, Ys))
+        except Exception as e:
+            print('   state %d: raised %s: %s' % (k, type(e).__name__, e)); same = False
+        if not same:
+            print('   state %d of the history (shapes %s) is not handed back as supplied' % (k, H)); ok = False
+            break
+    return ok
+
+
 def replay(ctx, entry):
     c = entry['violation']['case']
     if str(c.get('kind', '')).startswith('flatten'):
         return _replay_flatten(c)
+    if c.get('kind') == 'coupler-hist':
+        return _replay_hist(c)
+    if c.get('kind') == 'layout-run':
+        res = Result()
+        layout_oracle(res, c, layout_run(c))
+        for v in res.violations:
+            print('  ', v['key'], v['what'][:300])
+        return not res.violations
     conv = lambda s: float(s) if not s.startswith('np.') else float(s.split('(')[1].rstrip(')'))
     rng = ctx.rng
     nm = len(c['proposals'])
